@@ -1,5 +1,5 @@
 PROP = {
-    "modules": ["IdenaModel.Props.C06"],
+    "modules": ["IdenaModel.Props.C06", "IdenaModel.Props.C06Refine"],
     "theorems": [
         "IdenaModel.Chain.chain_nonces",
         "IdenaModel.Chain.no_dup",
@@ -7,10 +7,14 @@ PROP = {
         "IdenaModel.Chain.foreign_epoch_never_applied",
         "IdenaModel.Chain.inv_run",
         "IdenaModel.Chain.applied_rejected",
+        "IdenaModel.C06Refine.applyTx_refines",
+        "IdenaModel.C06Refine.ledger_run_refines",
+        "IdenaModel.C06Refine.ledger_chain",
+        "IdenaModel.C06Refine.ledger_replay_rejected",
     ],
     "channels": [{"name": "C06", "exe": "oracle_c06"}],
     "trusted_base": [
-        "the abstraction: of everything applyTxOnState/ValidateTx test, only the nonce/epoch clauses are modelled (other clauses can only reject more); checked against the real code by the probe lines",
+        "the abstraction: of everything applyTxOnState/ValidateTx test, only the nonce/epoch clauses are modelled (other clauses can only reject more); checked against the real code by the probe lines AND proved: the full per-type transaction model (M-Ledger, tied to the code by the C05 D-tx correspondence) refines this chain model (Props/C06Refine.lean), under the uint32 no-wrap hypothesis",
         "signature recovery identifies the sender (parameter); distinct signed transactions are distinguished by hash in the Go oracle, by (sender, epoch, nonce) in the model",
         "chain fixture harness/internal/chainfx (real node start-up, virtual clock, ceremony attach shim)"],
     "assumptions": ["dust clearing and deletion of empty accounts only reset nonces of accounts whose nonce is irrelevant (epoch change / nonce 0) — observed through the `acct` lines after every third block, not proved"],
